@@ -77,7 +77,7 @@ const WIRE_SERIALS: [u32; 20] = [
     0x0000_0002,
 ];
 
-fn serial_class(x: u32) -> &'static str {
+pub(super) fn serial_class(x: u32) -> &'static str {
     match x {
         0 => "zero",
         0xFFFF_FFFF => "max",
@@ -105,7 +105,7 @@ fn other_serial(rng: &mut Rng, x: u32, i: usize) -> u32 {
 
 //------------ server ----------------------------------------------------------------
 
-fn origin(a: u8, asn: u32) -> Payload {
+pub(super) fn origin(a: u8, asn: u32) -> Payload {
     let prefix = Prefix::new(IpAddr::V4(Ipv4Addr::new(192, 0, a, 0)), 24).expect("prefix");
     Payload::Origin(RouteOrigin::new(MaxLenPrefix::new(prefix, Some(24)).expect("maxlen"), Asn::from_u32(asn)))
 }
@@ -214,16 +214,16 @@ fn schedules(len: usize, wide: bool) -> Vec<(&'static str, Schedule)> {
     v
 }
 
-struct OutPdu {
-    typ: u8,
-    version: u8,
-    session: u16,
-    start: usize,
-    len: usize,
+pub(super) struct OutPdu {
+    pub typ: u8,
+    pub version: u8,
+    pub session: u16,
+    pub start: usize,
+    pub len: usize,
 }
 
 /// Cuts the server's output into PDUs by their length fields.
-fn split_output(out: &[u8]) -> (Vec<OutPdu>, usize) {
+pub(super) fn split_output(out: &[u8]) -> (Vec<OutPdu>, usize) {
     let mut pdus = Vec::new();
     let mut pos = 0;
     while out.len() - pos >= 8 {
@@ -237,11 +237,11 @@ fn split_output(out: &[u8]) -> (Vec<OutPdu>, usize) {
     (pdus, pos)
 }
 
-fn be32_at(out: &[u8], at: usize) -> Option<u32> {
+pub(super) fn be32_at(out: &[u8], at: usize) -> Option<u32> {
     out.get(at..at + 4).map(|s| u32::from_be_bytes([s[0], s[1], s[2], s[3]]))
 }
 
-fn describe_output(out: &[u8]) -> Vec<String> {
+pub(super) fn describe_output(out: &[u8]) -> Vec<String> {
     let (pdus, end) = split_output(out);
     let mut v: Vec<String> = pdus
         .iter()
@@ -498,7 +498,7 @@ impl AsyncWrite for ClientSock<'_> {
     }
 }
 
-struct Upd(Vec<(Action, Payload)>);
+pub(super) struct Upd(Vec<(Action, Payload)>);
 
 impl PayloadUpdate for Upd {
     fn push_update(&mut self, action: Action, payload: Payload) -> Result<(), PayloadError> {
@@ -508,8 +508,8 @@ impl PayloadUpdate for Upd {
 }
 
 #[derive(Default)]
-struct Tgt {
-    applied: usize,
+pub(super) struct Tgt {
+    pub applied: usize,
 }
 
 impl PayloadTarget for Tgt {
@@ -549,7 +549,7 @@ fn chunking_text(c: &Chunking) -> String {
     }
 }
 
-fn state_json(s: Option<State>) -> Value {
+pub(super) fn state_json(s: Option<State>) -> Value {
     match s {
         None => Value::Null,
         Some(s) => json!({"session": s.session(), "serial": u32::from(s.serial()), "serial_hex": format!("{:#010x}", u32::from(s.serial()))}),
